@@ -795,21 +795,39 @@ impl<'a> Exec<'a> {
         let Ok(after) = dump::dump_index(&self.index, &self.fields) else { return };
         let new_id = meta.id().uuid_string();
         let Some(seg) = after.segments.iter().find(|s| s.segment == new_id) else { return };
-        let mut expected: Vec<u64> = vec![];
+        let mut sources: Vec<Vec<u64>> = vec![];
         for id in ids {
             let sid = id.uuid_string();
             match before.segments.iter().find(|s| s.segment == sid) {
-                Some(s) => expected.extend(s.docs.iter().map(|(_, r)| r.uid)),
+                Some(s) => sources.push(s.docs.iter().map(|(_, r)| r.uid).collect()),
                 None => return, // a source was not part of the committed view (uncommitted segment)
             }
         }
+        sources.retain(|l| !l.is_empty());
         let got: Vec<u64> = seg.docs.iter().map(|(_, r)| r.uid).collect();
         self.out.probe("merge_order_checked");
-        if got != expected {
+        // the merged segment is the sources stacked (in whatever order of the sources), each
+        // source's alive documents contiguous and in their original order
+        let mut rest: &[u64] = &got;
+        let mut left = sources.clone();
+        let mut ok = true;
+        while !rest.is_empty() {
+            match left.iter().position(|l| rest.len() >= l.len() && &rest[..l.len()] == l.as_slice()) {
+                Some(i) => {
+                    let l = left.remove(i);
+                    rest = &rest[l.len()..];
+                }
+                None => {
+                    ok = false;
+                    break;
+                }
+            }
+        }
+        if !ok || !left.is_empty() {
             self.out.violate(
                 "C04",
                 "merge_order",
-                format!("merge of {:?} produced documents {got:?}, the sources stacked in order are {expected:?}", ids.iter().map(|i| i.uuid_string()).collect::<Vec<_>>()),
+                format!("merge of {:?} produced documents {got:?}, which is not the sources {sources:?} stacked", ids.iter().map(|i| i.uuid_string()).collect::<Vec<_>>()),
             );
         }
     }
